@@ -748,6 +748,7 @@ func pow(args []object.Object) object.Object {
 
 func sprintf(args []object.Object) object.Object {
 	res := fmt.Sprintf(args[0].(object.String).Value, object.Unwrap(args[1:], false)...)
+	object.MustBeOk(len(res) / object.ObjectSize) // s=sprintf("%s%s",s,s) in a loop doubles like s+s.
 	return object.String{Value: res}
 }
 
